@@ -230,6 +230,7 @@ def conclude(prop, violations, known_hits):
 def tier_seed(argv):
     tier = os.environ.get("VERIF_TIER", "quick")
     replay = None
+    seed_arg = None
     args = list(argv)
     while args:
         a = args.pop(0)
@@ -237,10 +238,12 @@ def tier_seed(argv):
             tier = args.pop(0)
         elif a == "--replay":
             replay = args.pop(0)
+        elif a == "--seed":
+            seed_arg = args.pop(0)
     if tier not in ("quick", "thorough"):
         tier = "quick"
     try:
-        seed = int(os.environ.get("VERIF_SEED", "1"))
+        seed = int(seed_arg if seed_arg is not None else os.environ.get("VERIF_SEED", "1"))
     except ValueError:
         seed = 1
     return tier, seed, replay
